@@ -128,10 +128,10 @@ func (n *Named) Delete(name string) error {
 		return errors.New("null pipe must not be closed")
 	}
 
-	n.mutex.Unlock()
-
 	verifhook.Yield("pipes.Delete.gap")
 	delete(n.pipes, name)
+	n.mutex.Unlock()
+
 	return nil
 }
 
